@@ -1,4 +1,5 @@
 import PexpectModel.Deadline
+import PexpectModel.ReadTiming
 /-! # C05 — deadlines.  Clock skeleton of `expect_loop` / `waitnoecho`; the transports enter through the contract
     `Dl.evOk` (a read given timeout `t` returns within `t + eps`, raises TIMEOUT only after `t`, never with `None`). -/
 namespace C05
@@ -55,5 +56,31 @@ example : (expectLoop (some 10) 0 0 false [⟨1000, .eof⟩]).2 = 1000 ∧ ¬ ru
 example : expectLoop (some 10) 0 0 false [⟨3, .miss⟩, ⟨3, .miss⟩, ⟨3, .miss⟩, ⟨3, .miss⟩, ⟨3, .miss⟩] = (.timeout, 12) := by decide
 example : runOk 2 10 (some 10) 0 [⟨3, .miss⟩, ⟨3, .miss⟩, ⟨3, .miss⟩, ⟨3, .miss⟩, ⟨3, .miss⟩] := by
   simp [runOk, evOk]
+
+/-! ### the transport contract assumed by `expect_deadline`, derived per transport (`Rt.*`): a read given timeout `t`
+    returns within `t` plus the non-blocking system calls on its path (each ≤ `d`), and raises TIMEOUT only after `t` -/
+
+theorem fd_read_contract (t : Nat) (readyAt : Option Nat) (e : Bool) (c : Rt.Costs) (d : Nat) (hc : c.le d) :
+    (Rt.fdRead (some t) readyAt e c).2 ≤ t + d ∧ ((Rt.fdRead (some t) readyAt e c).1 = .timeout → t ≤ (Rt.fdRead (some t) readyAt e c).2) :=
+  Rt.fd_contract t readyAt e c d hc
+
+theorem socket_read_contract (t : Nat) (readyAt : Option Nat) (e : Bool) (c : Rt.Costs) (d : Nat) (hc : c.le d) :
+    (Rt.sockRead (some t) readyAt e c).2 ≤ t + 2 * d ∧ ((Rt.sockRead (some t) readyAt e c).1 = .timeout → t ≤ (Rt.sockRead (some t) readyAt e c).2) :=
+  Rt.socket_contract t readyAt e c d hc
+
+theorem pty_read_contract (size t : Nat) (r0 : Bool) (dr : Nat) (a1 : Bool) (readyAt : Option Nat) (a2 rp : Bool) (c : Rt.Costs) (d : Nat)
+    (hc : c.le d) :
+    (Rt.ptyRead size t r0 dr a1 readyAt a2 rp c).2 ≤ t + (2 * size + 5) * d ∧
+    ((Rt.ptyRead size t r0 dr a1 readyAt a2 rp c).1 = .timeout → t ≤ (Rt.ptyRead size t r0 dr a1 readyAt a2 rp c).2) :=
+  Rt.pty_contract size t r0 dr a1 readyAt a2 rp c d hc
+
+theorem popen_read_bounded (n q t c el : Nat) (hel : el ≤ t) : (Rt.popenRead n q t c el).2 ≤ t + c := Rt.popen_bounded n q t c el hel
+
+theorem popen_zero_timeout_looks_once (n q c : Nat) : (Rt.popenRead (n + 1) (q + 1) 0 c 0).1 = 1 := Rt.popen_looks_at_queue_once n q c
+
+theorem fd_read_is_evOk (t : Nat) (readyAt : Option Nat) (e : Bool) (c : Rt.Costs) (d : Nat) (hc : c.le d) :
+    Dl.evOk d (some (t : Int)) ⟨(Rt.fdRead (some t) readyAt e c).2,
+      match (Rt.fdRead (some t) readyAt e c).1 with | .data => .miss | .eof => .eof | .timeout => .timeoutExc⟩ :=
+  Rt.fd_evOk t readyAt e c d hc
 
 end C05
